@@ -233,7 +233,44 @@ def check_confirmation(chk: Check, repo: Repo) -> None:
     chk.ob("confirmation-event-slot", fi.site(), len(ws) == 1 and ws[0].func.name == "__init__", "the event object is created once in __init__", key="confirmation-event-slot")
 
 
+def own_address(chk: Check, repo: Repo) -> None:
+    """`addressed to this interface` is decided against xknx.current_address (telegram_received cell table), so that
+    slot has to follow the address the interface actually has: besides XKNX.__init__ it is written only by the
+    interfaces' connect paths, each time unconditionally on the way to a successful return, from the address the
+    server assigned (tunnel: the connect response's CRD) / the configured routing address."""
+    ws = [w for w in attr_writes(repo, "current_address", include_mutators=False)]
+    chk.count("writers of xknx.current_address", len(ws))
+    chk.floor("writers of xknx.current_address", len(ws), 3)
+    for w in ws:
+        f = w.func
+        if f.qualname == "XKNX.__init__":
+            continue
+        chk.unit(f)
+        cfg = CFG(f.node)
+        nodes = [n.id for n in cfg.nodes if n.ast is w.stmt]
+        uncond = bool(nodes) and cfg.all_paths_hit(cfg.entry, nodes, [cfg.exit], edge_ok=cfg.normal_only)
+        v = w.stmt.value if isinstance(w.stmt, (ast.Assign, ast.AnnAssign)) else None
+        src = ast.unparse(v) if v is not None else "?"
+        origin_ok = False
+        why = ""
+        if isinstance(v, ast.Attribute) and isinstance(v.value, ast.Name) and v.value.id == "self":
+            # the attribute copied: either configuration set in __init__ only, or assigned just before from the connect response
+            aw = [x for x in attr_writes(repo, v.attr, include_mutators=False) if x.func.cls is not None and f.cls is not None and (repo.is_subclass(f.cls, x.func.cls) or repo.is_subclass(x.func.cls, f.cls)) and x.receiver == "self"]
+            local = [x for x in aw if x.func is f]
+            if local:
+                ln = [n.id for n in cfg.nodes if any(n.ast is x.stmt for x in local)]
+                dom = any(cfg.dominates(a, b) for a in ln for b in nodes)
+                from_crd = all(isinstance(x.stmt, (ast.Assign, ast.AnnAssign)) and "crd.individual_address" in ast.unparse(x.stmt.value) for x in local)
+                origin_ok = dom and from_crd and all(x.func is f or x.func.name == "__init__" for x in aw)
+                why = f"`{src}` is assigned before it, in the same function, from the connect response's CRD ({'yes' if from_crd else 'NO'}); other writers: {sorted({x.func.qualname for x in aw if x.func is not f})}"
+            else:
+                origin_ok = bool(aw) and all(x.func.name == "__init__" for x in aw)
+                why = f"`{src}` is configuration written only in {sorted({x.func.qualname for x in aw})}"
+        chk.ob("own-address-follows-the-interface-address", f.site(w.stmt), uncond and origin_ok, f"{f.qualname}: `{canon(w.stmt)}` is {'on every normal path to the return' if uncond else 'SKIPPED on some path to a successful return (the old address stays: frames for it still reach management, frames for the new one are dropped)'}; {why}", key=f"own-address|{f.qualname}")
+
+
 def run(chk: Check, repo: Repo) -> None:
+    own_address(chk, repo)
     table_handle_cemi_frame(chk, repo)
     table_telegram_received(chk, repo)
     check_from_knx_pairing(chk, repo)
